@@ -22,6 +22,23 @@ Theorem dns_constants_are_rfc1035 :
 Proof. exact Gen_resolver_ok. Qed.
 Print Assumptions dns_constants_are_rfc1035.
 
+(* the guard comparisons found in message_name_get, message_name_append_safe, BUF_OVERFLOW_CHECK and
+   resolver_srv_list_sort (regenerated on every run) are the ones the proofs below are about; in
+   particular the name buffer is retired at a pointer exactly when no cell is left (name_len >= name_max) *)
+Theorem dns_guards_are_the_proved_ones :
+  (forall p l, ovf_check p l = (l <=? p)) /\
+  (forall p o, pointer_guard p o = (o <=? p)) /\
+  (forall cp cw np nw, srv_swap cp cw np nw = ((np <? cp) || ((cp =? np) && (cw <? nw)))) /\
+  (forall i l, idx_guard i l = (l <=? i)) /\
+  (forall e l, label_end_guard e l = (l <=? e)) /\ label_end_adjust = 1 /\
+  (forall nlen nmax, name_full nlen nmax = ((nmax <=? nlen) && (0 <? nmax))) /\
+  (forall nmax nlen, room_left nmax nlen = Z.max 0 (nmax - nlen)) /\
+  (forall c, copy_guard c = (0 <? c)) /\
+  (forall m, term_guard m = (0 <? m)) /\
+  (forall n, fixup_guard n = (0 <? n)).
+Proof. exact Gen_resolver_guards_ok. Qed.
+Print Assumptions dns_guards_are_the_proved_ones.
+
 (* (1) safety: for every message of at most 64 KiB the decoder never reads outside the message,
    never accesses a cell outside the 256-cell target field (LOOB), and terminates within the
    fuel derived from the message length (LFuel) *)
